@@ -17,7 +17,8 @@ struct Run : ContBase {
     std::vector<std::string> universe;
     size_t range = 0;
     FILE *devnull = nullptr;
-    int nt_chain = 0; bool walked_after = false; int pending_nt = 0;
+    int nt_chain = 0;
+    int walks_with_lookups = 0; bool walked_after = false; int pending_nt = 0;
     int removed_inner = 0;
 
     Run(Src &s_, Ctx &c_, bool scr, bool ret) : ContBase(s_, c_, scr, ret, "hashtbl") {}
@@ -168,8 +169,18 @@ struct Run : ContBase {
         qhashtbl_obj_t o; memset(&o, 0, sizeof o);
         std::map<std::string, int> seen;
         size_t steps = 0;
+        // a third of the walks: read-only calls (get / getstr / size) on other keys between the steps -
+        // the table stays unmodified, so the walk must not notice
+        bool lookups = s.chance(1, 3); size_t nlook = 0;
         errno = poison;
         while (qhashtbl_getnext(t, &o, newmem)) {
+            if (lookups && s.chance(2, 3)) {
+                const std::string &gk = universe[s.range(0, (long)universe.size() - 1)];
+                size_t sz = 0; void *p = qhashtbl_get(t, gk.c_str(), &sz, false);
+                auto gi = m.find(gk);
+                if ((p != nullptr) != (gi != m.end()) || (p && (sz != gi->second.val.size() || memcmp(p, gi->second.val.data(), sz) != 0))) c.fail(FUNC, "hashtbl:get-bytes", "get(%s) between two steps of a walk returned the wrong result", hexs(gk).c_str());
+                (void)qhashtbl_size(t); nlook++;
+            }
             if (++steps > m.size() + 8) c.fail(FUNC, "hashtbl:walk-endless", "walk returned more than %zu entries for %zu keys", m.size() + 8, m.size());
             if (!o.name) c.fail(FUNC, "hashtbl:walk-null", "walk returned an entry without a name");
             std::string k = o.name;
@@ -183,6 +194,7 @@ struct Run : ContBase {
         int e = errno;
         if (seen.size() != m.size()) { std::string miss; for (auto &kv : m) if (!seen.count(kv.first)) { miss = kv.first; break; } c.fail(FUNC, "hashtbl:walk-missing", "walk returned %zu of %zu keys (e.g. %s never returned)", seen.size(), m.size(), hexs(miss).c_str()); }
         if (e != ENOENT) c.fail(FUNC, "hashtbl:walk-errno", "end of walk: errno=%d, expected ENOENT", e);
+        if (nlook) { c.op("  (%zu lookups of other keys between the steps)", nlook); walks_with_lookups++; }
         if (pending_nt) { nt_chain += pending_nt; pending_nt = 0; }
     }
     void full_compare(const char *when) {
@@ -237,6 +249,7 @@ struct Run : ContBase {
         leak_verdict("qhashtbl_free");
         c.tag(("range_" + std::string(range == 0 ? "default" : range == 1 ? "1" : range <= 5 ? "2-5" : "6+")).c_str());
         if (nt_chain) c.tag("case_with_inner_chain_removal_or_replace_then_walk");
+        if (walks_with_lookups) c.tag("case_with_lookups_inside_a_walk");
         if (c.mode == "C05") c.nontrivial = nt_chain > 0;
         else if (c.mode == "C11") c.nontrivial = removed_inner > 0 && nonempty;
         else if (c.mode == "C12") c.nontrivial = copies_outlived > 0;
